@@ -41,6 +41,18 @@ UNDO = {"periph_add": "periph_remove", "lag_on": "lag_off", "bio_add": "bio_remo
         "elim_mm": "elim_fo", "elim_mix": "elim_fo", "elim_zo": "elim_fo"}
 
 
+def may_reset(cat, val):
+    """categories that a request may reset to their default: exactly the documented exclusion pairs (docs/modelsearch.rst)
+    ZO-TRANSITS, SEQ-TRANSITS, SEQ-LAGTIME(ON), INST-LAGTIME(ON), INST-TRANSITS, LAGTIME(ON)-TRANSITS"""
+    if cat == "absorption":
+        return {"ZO": {"transits"}, "SEQ-ZO-FO": {"transits", "lagtime"}, "INST": {"transits", "lagtime"}}.get(val, set())
+    if cat == "lagtime" and val:
+        return {"transits", "absorption"}
+    if cat == "transits" and val:
+        return {"absorption", "lagtime"}
+    return set()
+
+
 def alphabet(tier, depth):
     from vlib import mgraph
 
@@ -132,7 +144,7 @@ def check_transition(hist, model, lab, m2, outcome, tier):
             if d == cat or after[d] == before[d]:
                 continue
             dv = after[d][0] if isinstance(after[d], tuple) and len(after[d]) == 1 else after[d]
-            if cat in COUPLED and d in COUPLED and dv == DEFAULT[d]:
+            if d in may_reset(cat, val) and dv == DEFAULT[d]:
                 continue
             if cat == "transits" and d == "absorption" and dv in ("FO", "INST"):
                 continue  # the depot comes and goes with the transit chain
